@@ -228,6 +228,34 @@ func RunCheck(root, property, tier string, seed int64, jobsN int, only string, v
 	}
 	sort.Strings(knownOpenIDs)
 	P, err := LoadProgram(spec.Harness)
+	var stale []string
+	for tries := 0; err != nil && tries < 4; tries++ {
+		// A harness file may no longer compile against an edited tree (it uses package internals).
+		// Drop the files named in the errors and go on with the remaining harnesses; the dropped
+		// ones are reported as inconclusive, never as success.
+		dropped := false
+		msg := err.Error()
+		var nh []HarnessRef
+		for _, h := range spec.Harness {
+			var keep []string
+			for _, f := range h.Files {
+				if strings.Contains(msg, "zz_verif_"+f) {
+					stale = append(stale, fmt.Sprintf("harness %s/%s does not compile against this tree: %s", h.Pkg, f, firstLineWith(msg, "zz_verif_"+f)))
+					dropped = true
+				} else {
+					keep = append(keep, f)
+				}
+			}
+			if len(keep) > 0 {
+				nh = append(nh, HarnessRef{Pkg: h.Pkg, Files: keep})
+			}
+		}
+		if !dropped {
+			break
+		}
+		spec.Harness = nh
+		P, err = LoadProgram(spec.Harness)
+	}
 	if err != nil {
 		fmt.Printf("INCONCLUSIVE property=%s reason=%v\n", property, err)
 		writeEvidence(root, &spec, tier, seed, nil, nil, time.Since(t0).Seconds(), 0, []string{"load failed: " + err.Error()}, nil)
@@ -276,6 +304,7 @@ func RunCheck(root, property, tier string, seed int64, jobsN int, only string, v
 
 	// ---- native replay per package ----
 	var incon []string
+	incon = append(incon, stale...)
 	type tagged struct {
 		v    *Violation
 		kind string // "viol", "known", "sample"
@@ -637,4 +666,13 @@ func RunReplayOne(root, property, file string) int {
 	}
 	fmt.Printf("not reproduced: native fails=%v\n", out[0].fails)
 	return 0
+}
+
+func firstLineWith(s, sub string) string {
+	for _, l := range strings.Split(s, "\n") {
+		if strings.Contains(l, sub) {
+			return l
+		}
+	}
+	return ""
 }
